@@ -70,7 +70,7 @@ def run (α : Type) [Scalar α] [Codec α] (op : String) (c : Ctx) : Option (Rd 
   | "b.circumsysc" => some do
       let verts : List (V3 α) ← Rd.list c (Rd.v3 c)
       let normal : V3 α ← Rd.v3 c
-      let rows := circumSystemCircle verts normal
+      let rows := circumSystemCircleScaled verts normal
       pure s!"{outRows rows} {Out.sc (circumAtol rows)}"
   | "b.circumsphere" => some do
       -- in: verts x resids ; out: ball
